@@ -11,13 +11,16 @@ EXTENDS Naturals, Sequences, FiniteSets, TLC
 Values == {"i5", "i0", "im1", "s_abc", "s_5", "s_x", "true", "null", "a_12", "a_a", "o_k1", "f1_5", "o_x1", "a_ox1"}   \* o_x1 = {"x":1}, a_ox1 = [{"x":1}]
 \* JSON-schema fragments: int = {"type":"integer"}, intmin0 = + "minimum":0, intmax0 = + "maximum":0,
 \* strenum = {"type":"string","enum":["abc","5"]}, bool = {"type":"boolean"}, intlist = {"type":"array","items":{"type":"integer"}}
-SchemaTypes == {"int", "intmin0", "intmax0", "strenum", "bool", "intlist"}
+\* d4exmin0 = {"type":"integer","minimum":0,"exclusiveMinimum":true} inside a schema that declares "$schema": draft-04
+\*            (a boolean exclusiveMinimum is draft-04 syntax: the declared dialect must be honoured)
+SchemaTypes == {"int", "intmin0", "intmax0", "strenum", "bool", "intlist", "d4exmin0"}
 SchemaConf(T, v) == CASE T = "int"     -> v \in {"i5", "i0", "im1"}
                       [] T = "intmin0" -> v \in {"i5", "i0"}
                       [] T = "intmax0" -> v \in {"i0", "im1"}
                       [] T = "strenum" -> v \in {"s_abc", "s_5"}
                       [] T = "bool"    -> v = "true"
                       [] T = "intlist" -> v = "a_12"
+                      [] T = "d4exmin0" -> v = "i5"
 \* type annotations: int, str, bool, Optional[int], List[int]: "yes" (already of the type), "no" (cannot be), "co" (convertible: don't-care)
 PydTypes == {"int", "str", "bool", "optint", "intlist", "model", "modellist", "float", "dictint", "enum"}
 \* model: a pydantic model class with one field x : int; dictint: Dict[str, int]; enum: an Enum class with the values "abc" and "5"
@@ -39,7 +42,9 @@ PydConf(T, v) == CASE T = "int"     -> IF v \in {"i5", "i0", "im1"} THEN "yes" E
 \* per-method arguments; "shared_default" = that shared object's validator-level default schema.  A validator carries no
 \* state from call to call, so vsrc never appears in the rules below.
 VARIABLES scn,       \* [validator, vsrc, params : Seq([type, dflt]), extra \in {"none","ctx","dep"}, passing, vals : Seq(value | "omit"),
-                     \*  setextra : BOOLEAN]   -- parameters are named p1, p2, p3; the excluded one "ctx" / "dep"
+                     \*  setextra : BOOLEAN, flavour \in {"func", "view"}]   -- parameters are named p1, p2, p3; the excluded one "ctx" / "dep";
+\*  flavour "view": the method belongs to a class based view (the context, if any, goes to the view constructor) - like the
+\*  validator source it appears in no rule below
           pc, received, reply
 vars == <<scn, pc, received, reply>>
 NoRecv == [ran |-> FALSE, p1 |-> "na", p2 |-> "na", p3 |-> "na", extra |-> "na"]
@@ -61,7 +66,9 @@ Verdict == IF ~BindOk \/ SomeNo \/ ~SchemaRequiredOk THEN "reject" ELSE IF AllYe
 
 \* what the body receives: the caller's values unchanged (or converted where the don't-care region applies), defaults, server-side extras
 ExpectedVal(j) == IF j > N THEN "na" ELSE IF Provided(j) THEN scn.vals[j] ELSE "DEFAULT"
-ExpectedExtra == CASE scn.extra = "ctx" -> "CTX" [] scn.extra = "dep" -> "DEFAULT" [] OTHER -> "na"
+\* "dep": a defaulted parameter the exclusion predicate selects by NAME; "dep_ann": ... selects by its missing annotation
+\* (the predicate is then also true for an un-annotated `self` of a view method - which is not a parameter at all)
+ExpectedExtra == CASE scn.extra = "ctx" -> "CTX" [] scn.extra \in {"dep", "dep_ann"} -> "DEFAULT" [] OTHER -> "na"
 Expected == [ran |-> TRUE, p1 |-> ExpectedVal(1), p2 |-> ExpectedVal(2), p3 |-> ExpectedVal(3), extra |-> ExpectedExtra]
 TypeOfParam(j) == scn.params[j].type
 TypeClass(T) == CASE T \in {"int", "optint"} -> "t_int" [] T = "str" -> "t_str" [] T = "bool" -> "t_bool" [] T = "model" -> "t_model"
